@@ -22,6 +22,7 @@ type Profile struct {
 	LargeProb    float64
 	BoundaryProb float64
 	CompositeProb float64
+	TypeRange     int // distinct type-info numbers drawn (default 4); wide ranges fill the shared type-info table of a slab past its one-byte indexes
 	KeyUniverse  int
 	NestedTargetBias float64 // probability to target a nested container when one exists
 	KeepProb  float64 // keep detached children alive
@@ -105,7 +106,11 @@ func (g *Gen) genKey(r *Rng, i int) VSpec {
 }
 
 func (g *Gen) genType() TypeInfo {
-	return TypeInfo{Comp: g.R.Chance(g.P.CompositeProb), N: uint64(g.R.Intn(4))}
+	n := 4
+	if g.P.TypeRange > 0 {
+		n = g.P.TypeRange
+	}
+	return TypeInfo{Comp: g.R.Chance(g.P.CompositeProb), N: uint64(g.R.Intn(n))}
 }
 
 // genScalar generates a scalar whose encoded size is chosen relative to limit
